@@ -857,8 +857,19 @@ func EdgeReaches(e Edge, target ssa.Instruction, g *Gates) bool {
 // returns (matches, holdsWhenTrue): when matches, the true edge is returned
 // if holdsWhenTrue else the false edge.
 func CmpEdges(fn *ssa.Function, pred func(b *ssa.BinOp) (bool, bool)) []Edge {
-	var out []Edge
-	for _, blk := range fn.Blocks {
+	// the comparison may sit in fn itself or in a bool-returning predicate helper fn calls
+	// (DeepCondEdges maps the helper's parameters back to fn's arguments)
+	return DeepCondEdges(fn, func(f *ssa.Function, orig func(ssa.Value) ssa.Value) []CondGate {
+		return cmpGates(f, orig, pred)
+	})
+}
+
+// cmpGates presents every comparison of f to pred — as written and in its
+// equivalent spellings (operands swapped, operator negated) — with operands
+// mapped through orig, and returns the matched conditions.
+func cmpGates(f *ssa.Function, orig func(ssa.Value) ssa.Value, pred func(b *ssa.BinOp) (bool, bool)) []CondGate {
+	var out []CondGate
+	for _, blk := range f.Blocks {
 		for _, in := range blk.Instrs {
 			b, ok := in.(*ssa.BinOp)
 			if !ok {
@@ -869,29 +880,32 @@ func CmpEdges(fn *ssa.Function, pred func(b *ssa.BinOp) (bool, bool)) []Edge {
 			default:
 				continue
 			}
-			// the predicate sees the comparison as written and, when that does
-			// not match, its equivalent spellings: operands swapped (a<b ≡ b>a)
-			// and the negated operator (whose true edge is this one's false edge)
-			if m, whenTrue := pred(b); m {
-				out = append(out, CondEdges(b, whenTrue)...)
+			view := b
+			if ox, oy := orig(b.X), orig(b.Y); ox != b.X || oy != b.Y {
+				cp := *b
+				cp.X, cp.Y = ox, oy
+				view = &cp
+			}
+			if m, whenTrue := pred(view); m {
+				out = append(out, CondGate{Cond: b, Want: whenTrue})
 				continue
 			}
-			sw := *b
-			sw.X, sw.Y, sw.Op = b.Y, b.X, flipOp(b.Op)
+			sw := *view
+			sw.X, sw.Y, sw.Op = view.Y, view.X, flipOp(view.Op)
 			if m, whenTrue := pred(&sw); m {
-				out = append(out, CondEdges(b, whenTrue)...)
+				out = append(out, CondGate{Cond: b, Want: whenTrue})
 				continue
 			}
-			ng := *b
-			ng.Op = negOp(b.Op)
+			ng := *view
+			ng.Op = negOp(view.Op)
 			if m, whenTrue := pred(&ng); m {
-				out = append(out, CondEdges(b, !whenTrue)...)
+				out = append(out, CondGate{Cond: b, Want: !whenTrue})
 				continue
 			}
 			ns := sw
 			ns.Op = negOp(sw.Op)
 			if m, whenTrue := pred(&ns); m {
-				out = append(out, CondEdges(b, !whenTrue)...)
+				out = append(out, CondGate{Cond: b, Want: !whenTrue})
 			}
 		}
 	}
@@ -1753,25 +1767,26 @@ func returnImplies(h *ssa.Function, ret bool, m CondMatcher, orig func(ssa.Value
 		return false
 	}
 	type src struct {
-		v  ssa.Value
-		at ssa.Instruction // where this source is selected: the terminator of the phi's predecessor, or the return
+		v    ssa.Value
+		at   ssa.Instruction // where this source is selected: the terminator of the phi's predecessor, or the return
+		edge *Edge           // the phi's incoming edge, when the source comes through a phi
 	}
 	for _, r := range rets {
 		var srcs []src
 		seen := map[ssa.Value]bool{}
-		var expand func(v ssa.Value, at ssa.Instruction)
-		expand = func(v ssa.Value, at ssa.Instruction) {
+		var expand func(v ssa.Value, at ssa.Instruction, edge *Edge)
+		expand = func(v ssa.Value, at ssa.Instruction, edge *Edge) {
 			if ph, ok := v.(*ssa.Phi); ok && !seen[v] {
 				seen[v] = true
 				for i, e := range ph.Edges {
 					pred := ph.Block().Preds[i]
-					expand(e, pred.Instrs[len(pred.Instrs)-1])
+					expand(e, pred.Instrs[len(pred.Instrs)-1], &Edge{pred, ph.Block()})
 				}
 				return
 			}
-			srcs = append(srcs, src{v, at})
+			srcs = append(srcs, src{v, at, edge})
 		}
-		expand(RetVal(r, 0), r)
+		expand(RetVal(r, 0), r, nil)
 		for _, s := range srcs {
 			if k, ok := s.v.(*ssa.Const); ok && k.Value != nil && k.Value.Kind() == constant.Bool {
 				if constant.BoolVal(k.Value) != ret {
@@ -1789,6 +1804,9 @@ func returnImplies(h *ssa.Function, ret bool, m CondMatcher, orig func(ssa.Value
 			}
 			if isGate {
 				continue
+			}
+			if s.edge != nil && g.Edges[*s.edge] {
+				continue // the value is selected on a gate edge itself
 			}
 			if ok, _ := MustPass(s.at, g); !ok || g.Empty() {
 				return false
